@@ -803,25 +803,6 @@ func allocSite(e *ev.Env, c *ev.Case, mk func() *fiber.App, input []byte, limit,
 		}
 		return "unattributed"
 	}
-	// sufficient: the component alone (every other one switched off) still costs the request dearly
-	sufficient := func(name string) bool {
-		alt := input
-		for _, g := range comps {
-			if g.name == name {
-				continue
-			}
-			if a2, ok := g.alt(alt); ok {
-				alt = a2
-			}
-		}
-		d, p := coldAlloc(e, c, mk, alt)
-		if e.Verbose {
-			println("allocSite: only", name, "->", d)
-		}
-		// over budget alone, or at least a substantial part of what the full request costs above
-		// the bare one (another component may multiply it: a typed body is read several times)
-		return !p && (d > limit || (total > base && d > base && d-base >= (total-base)/8))
-	}
 	var explains, full []string
 	var present, irrelevant []comp
 	for _, f := range comps {
@@ -910,9 +891,7 @@ func allocSite(e *ev.Env, c *ev.Case, mk func() *fiber.App, input []byte, limit,
 		// another component may merely multiply the cost (a typed body is read several times)
 		explains = full
 	}
-	combined := false
 	if len(explains) == 0 && len(present) > 1 {
-		combined = true
 		// Several components may contribute at once (an inflated request body AND the working
 		// memory of a compressed response): neutralise them pairwise, finally all together. The
 		// first set that brings the request within the threshold explains it.
@@ -979,17 +958,6 @@ func allocSite(e *ev.Env, c *ev.Case, mk func() *fiber.App, input []byte, limit,
 				}
 			}
 		}
-	}
-	// necessity (removal helps) is not enough: the component must also be sufficient on its own
-	// - unless it was named by a combination, where it is not by construction
-	if len(explains) >= 1 && !combined {
-		var kept []string
-		for _, x := range explains {
-			if x == "response-compression" || sufficient(x) {
-				kept = append(kept, x)
-			}
-		}
-		explains = kept
 	}
 	// "typed-body" is implied by the more specific multipart component
 	if len(explains) == 2 && explains[0] == "multipart-form" && explains[1] == "typed-body" {
